@@ -148,7 +148,12 @@ def gen_valid(rng):
             x['suites'] = snames[:rng.randint(1, len(snames))]
             x['executions'] = enames[:rng.randint(1, len(enames))]
         elif style < 0.8:
-            x['executions'] = [{en: dict(gen_details(rng, 0.2), suites=snames[:rng.randint(1, len(snames))])} for en in enames]
+            if rng.random() < 0.5:
+                # the same details for every execution (written once and aliased in `factor`)
+                shared = dict(gen_details(rng, 0.3), suites=snames[:rng.randint(1, len(snames))])
+                x['executions'] = [{en: copy.deepcopy(shared)} for en in enames]
+            else:
+                x['executions'] = [{en: dict(gen_details(rng, 0.2), suites=snames[:rng.randint(1, len(snames))])} for en in enames]
         else:
             x['suites'] = snames
             x['executions'] = [enames[0]] + [{en: gen_details(rng, 0.3)} for en in enames[1:]]
@@ -162,6 +167,9 @@ def gen_valid(rng):
             x['reporting'] = {}
         x.update(gen_details(rng, 0.15))
         experiments['X%d' % (i + 1)] = x
+    if len(experiments) == 1 and rng.random() < 0.25:
+        # a second experiment that repeats the first (an alias of it in `factor`)
+        experiments['X2'] = copy.deepcopy(experiments['X1'])
     cfg = {}
     if rng.random() < 0.3:
         cfg['default_experiment'] = rng.choice(['all', 'X1'])
@@ -186,7 +194,7 @@ def gen_valid(rng):
     return cfg
 
 
-POOL = ['q\0.data', '/tmp', '.', '{x}', 'a{0}b', '{', '}}', '{}', {'{k}': {}}, ['{s}'], None, {}, [], '', 'abc', '3!', '!', 'x!', 2.5, True, False, 0, -1, 7, '2.5', ' 4 ', '1_0', [1], ['a', None], [None],
+POOL = [float('inf'), float('-inf'), float('nan'), 10 ** 30, 'q\0.data', '/tmp', '.', '{x}', 'a{0}b', '{', '}}', '{}', {'{k}': {}}, ['{s}'], None, {}, [], '', 'abc', '3!', '!', 'x!', 2.5, True, False, 0, -1, 7, '2.5', ' 4 ', '1_0', [1], ['a', None], [None],
         {'a': 1}, {'a': {}, 'b': {}}, {'a': None}, '~x', 'profile', 'benchmark', 'profiler', 'all', 'S1', 'E1', 'X1',
         datetime.date(2020, 1, 2), 1e100, 'inf', ['S1'], ['E1'], [['S1']], {'perf': {}}, {'perf': {'record_args': None}},
         {'other': {}}, {'suites': None}, {'suites': ['S1']}, {'invocations': ''}, {'cores': None}, [{}]]
@@ -214,7 +222,16 @@ def mutate(rng, cfg):
     """one mutation of the kinds the property lists; returns (kind, new cfg)"""
     cfg = copy.deepcopy(cfg)
     ps = [p for p in paths(cfg) if p]
-    kind = rng.choice(['drop', 'set', 'set', 'set', 'addkey', 'dangle', 'wrap', 'null', 'empty'])
+    kind = rng.choice(['drop', 'set', 'set', 'set', 'addkey', 'dangle', 'wrap', 'null', 'empty', 'edge', 'edge'])
+    if kind == 'edge':
+        maps = detail_maps(cfg)
+        if maps:
+            m, _wv = rng.choice(maps)
+            k = rng.choice(EDGE_KEYS)
+            v = rng.choice(EDGE)
+            m[k] = v
+            return 'edge:%s:%s' % (k, type(v).__name__), cfg
+        kind = 'set'
     p = rng.choice(ps)
     parent = get_at(cfg, p[:-1])
     cur = parent[p[-1]]
@@ -397,6 +414,16 @@ experiments:
                           'executors:\n  E1: {executable: x}\nexperiments:\n  X: {suites: [S1], executions: [E1]}\n'),
     ('null-retries-benchmark', 'benchmark_suites:\n  S1: {gauge_adapter: Time, command: c, benchmarks: [{b: {retries_after_failure: }}]}\n'
                                'executors:\n  E1: {executable: x}\nexperiments:\n  X: {suites: [S1], executions: [E1]}\n'),
+    ('float-edges-every-level',
+     'runs: {max_invocation_time: .inf}\nbenchmark_suites:\n  S1:\n    gauge_adapter: Time\n    command: c\n    max_invocation_time: -.inf\n'
+     '    benchmarks: [{b: {max_invocation_time: 1.0e+400, min_iteration_time: .nan}}]\n'
+     'executors:\n  E1: {executable: x, retries_after_failure: .inf}\nexperiments:\n  X: {suites: [S1], executions: [{E1: {max_invocation_time: .NaN}}], min_iteration_time: -.Inf}\n'),
+    ('max-invocation-time-inf', 'runs: {max_invocation_time: .inf}\nbenchmark_suites:\n  S1: {gauge_adapter: Time, command: c, benchmarks: [b]}\n'
+                                'executors:\n  E1: {executable: x}\nexperiments:\n  X: {suites: [S1], executions: [E1]}\n'),
+    ('max-invocation-time-huge-exp', 'benchmark_suites:\n  S1: {gauge_adapter: Time, command: c, benchmarks: [{b: {max_invocation_time: 1.0e+400}}]}\n'
+                                     'executors:\n  E1: {executable: x}\nexperiments:\n  X: {suites: [S1], executions: [E1]}\n'),
+    ('pif-inf', 'runs: {parallel_interference_factor: .inf}\nbenchmark_suites:\n  S1: {gauge_adapter: Time, command: c, benchmarks: [b]}\n'
+                'executors:\n  E1: {executable: x}\nexperiments:\n  X: {suites: [S1], executions: [E1]}\n'),
     ('empty-key', 'benchmark_suites:\n  "": {gauge_adapter: Time, command: c, benchmarks: [b]}\n'),
 ]
 
@@ -580,6 +607,40 @@ DETAIL_KEYS = ['invocations', 'iterations', 'warmup', 'max_invocation_time', 'mi
 VAR_KEYS = ['input_sizes', 'cores', 'variable_values', 'tags']
 
 
+def detail_maps(cfg):
+    """the maps of a configuration that may carry run details: (map, may it carry variables too)
+    — runs, machines, suites, executors, experiments, benchmark details, execution details"""
+    targets = []
+    if not isinstance(cfg, dict):
+        return targets
+
+    def dicts(x):
+        return [v for v in x.values() if isinstance(v, dict)] if isinstance(x, dict) else []
+    if isinstance(cfg.get('runs'), dict):
+        targets.append((cfg['runs'], False))
+    for sec in ('benchmark_suites', 'executors', 'experiments', 'machines'):
+        for v in dicts(cfg.get(sec)):
+            targets.append((v, True))
+    for sv in dicts(cfg.get('benchmark_suites')):
+        bs = sv.get('benchmarks')
+        for b in (bs if isinstance(bs, list) else []):
+            for det in dicts(b):
+                targets.append((det, True))
+    for xv in dicts(cfg.get('experiments')):
+        es = xv.get('executions')
+        for e in (es if isinstance(es, list) else []):
+            for det in dicts(e):
+                targets.append((det, True))
+    return targets
+
+
+# YAML scalars on the edges of each type, for every run detail on every level
+EDGE = [float('inf'), float('-inf'), float('nan'), 1e308, 1e100, -0.0, 0.5, 2.5, 90.0, 10 ** 30, -(10 ** 30), 2 ** 63, 0, -1,
+        True, False, None, '', '1e5', '.inf', 'inf', 'nan', '0x10', '1_000', '5', '5!', ' 5', '-3', '+3']
+EDGE_KEYS = ['invocations', 'iterations', 'warmup', 'min_iteration_time', 'max_invocation_time', 'retries_after_failure',
+             'ignore_timeouts', 'execute_exclusively', 'parallel_interference_factor']
+
+
 def factor(rng, cfg):
     """the same configuration written with anchors, aliases and merge keys: common settings
     are moved into anchored maps under a dot key and merged with `<<`, some of the merged
@@ -588,27 +649,34 @@ def factor(rng, cfg):
     cfg = copy.deepcopy(cfg)
     MERGE = '__verif_merge__'
     defs = {}
-    targets = []   # maps that may carry run details (and variables)
-    if isinstance(cfg.get('runs'), dict):
-        targets.append((cfg['runs'], False))
-    for sec in ('benchmark_suites', 'executors', 'experiments', 'machines'):
-        for v in (cfg.get(sec) or {}).values():
-            if isinstance(v, dict):
-                targets.append((v, True))
-    for sv in (cfg.get('benchmark_suites') or {}).values():
-        for b in sv.get('benchmarks', []):
-            if isinstance(b, dict):
-                for det in b.values():
-                    if isinstance(det, dict):
-                        targets.append((det, True))
-    for xv in (cfg.get('experiments') or {}).values():
-        for e in xv.get('executions', []) or []:
-            if isinstance(e, dict):
-                for det in e.values():
-                    if isinstance(det, dict):
-                        targets.append((det, True))
     n = 0
+    # every repeated non-empty sub-document (map or list) may become an alias of its first
+    # occurrence: the loaded configuration then contains the *same* object in several places
+    # (execution details, experiments, executors, benchmark lists, suite lists, env maps ...)
+    if rng.random() < 0.75:
+        seen = []
+
+        def share(node):
+            nonlocal n
+            items = list(node.items()) if isinstance(node, dict) else list(enumerate(node))
+            for k, v in items:
+                if isinstance(v, (dict, list)) and len(v) > 0:
+                    hit = None
+                    for o in seen:
+                        if type(o) is type(v) and o == v and o is not v:
+                            hit = o
+                            break
+                    if hit is not None and rng.random() < 0.85:
+                        node[k] = hit
+                        n += 1
+                        continue
+                    seen.append(v)
+                    share(v)
+        share(cfg)
+    targets = detail_maps(cfg)
     for (m, with_vars) in targets:
+        if MERGE in m:
+            continue   # reached a second time through an alias
         allowed = DETAIL_KEYS + (VAR_KEYS if with_vars else [])
         mine = [k for k in m if k in allowed]
         if rng.random() < 0.35:
@@ -688,7 +756,7 @@ def run(ck):
     ck.count('corpus', len(cases))
     cases += [(k, t, [], k.startswith(('null-details-', 'null-retries-', 'quoted-invocations', 'anchor-merge', 'profile-ok'))) for (k, t) in ANCHOR_TEXTS]
     cases += [(k + '/-p', t, ['-p'], False) for (k, t) in ANCHOR_TEXTS if k.startswith(('command-', 'quoted-', 'anchor-merge'))]
-    n = 240 if quick else 3000
+    n = 180 if quick else 3000
     for _ in range(n):
         cfg = gen_valid(ck.rng)
         cli = ck.rng.choice(CLI_VARIANTS)
